@@ -1,3 +1,4 @@
+import MemcVerif.Proofs.RespRT
 import MemcVerif.Proofs.Frames
 import MemcVerif.Proofs.Skip
 import MemcVerif.Proofs.TablesTie
@@ -17,6 +18,17 @@ theorem C13_too_large_answer (s : σ) (now : Nat) (h : ReqHeader) :
   constructor
   · simp [execEv, isQuitQ, handleRequest, Req.header, Resp.isQuit, errorResp]
   · simp [errorResp, Resp.header, CacheError.code]
+
+/-- in particular an oversized request whose opcode is quit or quitq is *not* a quit: it is answered 'too large' and the
+    connection stays open (the loud and the quiet closing rule both look at the decoded request, never at the raw opcode) -/
+theorem C13_oversized_quit_keeps_open (s : σ) (now : Nat) (h : ReqHeader) (_hq : h.opcode = 0x07 ∨ h.opcode = 0x17) :
+    (execEv C now s (.frame (.tooLarge h))).2.2 = false ∧
+    (execEv C now s (.frame (.tooLarge h))).2.1 ≠ [] := by
+  rw [(C13_too_large_answer C s now h).1]
+  refine ⟨rfl, ?_⟩
+  intro h0
+  have hlen := congrArg List.length h0
+  simp [encode, encodeHeader_length] at hlen
 
 /-- **skipped cleanly, however the body is split**: for a pipeline `oversized frame ++ rest`, delivered in
     any segmentation, the result is: the 'too large' answer, then exactly what `rest` alone produces on the
@@ -219,3 +231,4 @@ end Memc
 #print axioms Memc.C13_skip_loop_exact
 #print axioms Memc.C13_skip_buffer_is_the_sources
 #print axioms Memc.C13_size_test_is_the_sources
+#print axioms Memc.C13_oversized_quit_keeps_open
